@@ -45,10 +45,12 @@ Definition scalar_meth (s : scalar) : meth :=
 (* ---- the iterators ---------------------------------------------------------------------- *)
 
 (* does `node.iter()` / `node.iter_mut()` of a `&dyn TableLike` yield this entry?
-   Table::iter, Table::iter_mut:            `.filter(|(_, value)| !value.is_none())`
-   impl TableLike for InlineTable iter/iter_mut: `self.items.iter().map(..)` — no filter, an
-   `Item::None` entry IS yielded (unlike the inherent InlineTable::iter). *)
-Definition like_yields (inline : bool) (i : item) : bool := inline || negb (item_is_none i).
+   Table::iter, Table::iter_mut (table.rs) and `impl TableLike for InlineTable` iter / iter_mut
+   (inline_table.rs, since the repair of finding F11) both carry
+       `.filter(|(_, value)| !value.is_none())`
+   so an `Item::None` placeholder is never yielded, whichever implementation is behind the
+   `dyn`.  (`inline` = the object is an InlineTable; kept because the two are distinct impls.) *)
+Definition like_yields (inline : bool) (i : item) : bool := negb (item_is_none i).
 
 (* ---- trait Visit: log, then the default body -------------------------------------------- *)
 
